@@ -1,5 +1,6 @@
 import PV.Lemmas.Tree.AVL
 import PV.Lemmas.Tree.RB
+import PV.Generated.TreeLoops
 /-!
 # C13 — AVL and red-black trees stay balanced after every operation
 
